@@ -28,6 +28,14 @@ check("C02", "model_checking",
       "state de-duplication merges only states equal in every reader field/local and reference field (ids renamed).",
       "explicit-state BFS of implementation x reference-model product; bounded-exhaustive token product", "DESIGN.md 5/C02")
 
+check("C04", "model_checking",
+      "Complete enumeration of the accessibility product the property quantifies over (scope default x its position x declaration attribute x access "
+      "statement x its position x entity kind x identifier case; singles, all ordered pairs over a reduced value set, embedding contexts, the "
+      "component/binding product of derived types, submodules), each case parsed and correlated by the real ford package and compared with a direct "
+      "implementation of the standard's rule. Exhaustive over that finite space.",
+      "Trusted: the 10-line reference rule in checks/c04.py and the source renderer; illegal Fortran combinations are not generated; two genuine defects are listed in known_findings.json and matched by exact feature values.",
+      "bounded-exhaustive enumeration of the configuration product against a reference rule", "DESIGN.md 5/C04")
+
 ALL = [f"C{i:02d}" for i in range(1, 21)]
 PENDING_REASON = "check not built yet in this round (planned: see DESIGN.md section 5); will be claimed once its exhaustive check exists"
 
